@@ -551,3 +551,37 @@ harness! {
         cov!(s, hb.len() == 4 && q.n == 4 && hb[0] >= 0xC2, "SPEC.cover.empty_delim_multibyte");
     }
 }
+
+// EXPERIMENTS (to be removed)
+harness! {
+    /// kind=bounded tier=quick bound="x"
+    #[kani::unwind(8)]
+    fn c06_x1(s) {
+        let f = body_char::<_, 3>(s, Which::Split);
+        cov!(s, f.n == 3, "C06.cover.x1");
+    }
+}
+harness! {
+    /// kind=bounded tier=quick bound="x"
+    #[kani::unwind(8)]
+    fn c06_x2(s) {
+        let f = body_str::<_, 3, 1>(s, Which::Split);
+        cov!(s, f.n == 3, "C06.cover.x2");
+    }
+}
+harness! {
+    /// kind=bounded tier=quick bound="x"
+    #[kani::unwind(8)]
+    fn c06_x3(s) {
+        let f = body_str::<_, 3, 2>(s, Which::Split);
+        cov!(s, f.n == 3, "C06.cover.x3");
+    }
+}
+harness! {
+    /// kind=bounded tier=quick bound="x"
+    #[kani::unwind(8)]
+    fn c06_x4(s) {
+        let f = body_str::<_, 3, 2>(s, Which::SplitTerminator);
+        cov!(s, f.n == 3, "C06.cover.x4");
+    }
+}
